@@ -1077,7 +1077,8 @@ theorem ct_generate_wf (a : AEAD) (hl : a.Laws) {now proto expireSecs clientId :
 
 /-- A token whose address array has a hole (slot 1 empty, slot 2 used) does not round-trip:
     `write_server_addresses` emits the two present addresses back to back and `read_server_addresses` puts
-    them into slots 0 and 1.  (The library never builds such an array: `generate` fills a prefix.) -/
+    them into slots 0 and 1.  (The library never builds such an array: `generate` fills a prefix, and — since the
+    repair of D19 — `read` returns prefix-compact arrays only, `readServerAddresses_compact`.) -/
 theorem hole_not_roundtrip :
     let a1 := Addr.v4 [127, 0, 0, 1] 5000
     let a2 := Addr.v6 (List.replicate 16 1) 6000
@@ -3356,9 +3357,63 @@ theorem readI32_some {src r : Bytes} {t : Int} (h : readI32 src = some (t, r)) :
     · unfold i32OfU32; split <;> omega
     · unfold i32OfU32; split <;> omega
 
-/-- what `ConnectToken::read` returns has the field widths of the Rust type and the library's version string -/
-theorem ct_read_wf {src : Bytes} {t : ConnectToken} (h : ConnectToken.read src = .ok t)
-    (hc : Compact t.serverAddresses) : CTokenWF t := by
+/-- `read_server_addresses` loop (repaired, D19): every entry it returns is a well-formed address — a NONE entry is
+    an error — so the list has no holes -/
+theorem readAddrLoop_some : ∀ (n : Nat) {src r : Bytes} {l : List (Option Addr)}, readAddrLoop n src = some (l, r) →
+    ∃ hosts : List Addr, l = hosts.map some ∧ hosts.length = n ∧ ∀ x ∈ hosts, x.WF := by
+  intro n
+  induction n with
+  | zero => intro src r l h; simp only [readAddrLoop] at h; cases h; exact ⟨[], rfl, rfl, by simp⟩
+  | succ n ih =>
+    intro src r l h
+    simp only [readAddrLoop, Option.bind_eq_bind, Option.bind_eq_some_iff, Prod.exists] at h
+    obtain ⟨ty, r1, h1, h⟩ := h
+    split at h
+    · simp only [Option.bind_eq_some_iff, Option.pure_def, Option.some.injEq, Prod.exists, Prod.mk.injEq] at h
+      obtain ⟨ip, r2, h2, port, r3, h3, rest, r4, h4, rfl, rfl⟩ := h
+      obtain ⟨hosts, rfl, hl, hw⟩ := ih h4
+      obtain ⟨_, _, _, l2, _⟩ := readN_some h2
+      obtain ⟨_, _, _, _, b3⟩ := readU_some h3
+      refine ⟨.v4 ip port :: hosts, rfl, by simp [hl], ?_⟩
+      intro x hx
+      simp only [List.mem_cons] at hx
+      rcases hx with rfl | hx
+      · exact ⟨l2, by simpa using b3⟩
+      · exact hw x hx
+    · split at h
+      · simp only [Option.bind_eq_some_iff, Option.pure_def, Option.some.injEq, Prod.exists, Prod.mk.injEq] at h
+        obtain ⟨ip, r2, h2, port, r3, h3, rest, r4, h4, rfl, rfl⟩ := h
+        obtain ⟨hosts, rfl, hl, hw⟩ := ih h4
+        obtain ⟨_, _, _, l2, _⟩ := readN_some h2
+        obtain ⟨_, _, _, _, b3⟩ := readU_some h3
+        refine ⟨.v6 ip port :: hosts, rfl, by simp [hl], ?_⟩
+        intro x hx
+        simp only [List.mem_cons] at hx
+        rcases hx with rfl | hx
+        · exact ⟨l2, by simpa using b3⟩
+        · exact hw x hx
+      · split at h <;> cases h
+
+/-- every address array `read_server_addresses` accepts is prefix-compact with at least one address -/
+theorem readServerAddresses_compact {src r : Bytes} {arr : AddrArray} (h : readServerAddresses src = some (arr, r)) :
+    Compact arr := by
+  unfold readServerAddresses at h
+  simp only [Option.bind_eq_bind, Option.bind_eq_some_iff, Prod.exists] at h
+  obtain ⟨num, r1, _, l, r2, h2, h⟩ := h
+  obtain ⟨hosts, rfl, hl, hw⟩ := readAddrLoop_some _ h2
+  have h32 : hosts.length ≤ C.NETCODE_TOKEN_MAX_ADDRESSES := by rw [hl]; exact Nat.min_le_right _ _
+  split at h
+  · rename_i x hhead
+    simp only [Option.pure_def, Option.some.injEq, Prod.mk.injEq] at h
+    obtain ⟨rfl, _⟩ := h
+    refine ⟨hosts, ?_, h32, hw, by simp⟩
+    intro hn; subst hn
+    simp [C.NETCODE_TOKEN_MAX_ADDRESSES, RenetVerif.C.NETCODE_TOKEN_MAX_ADDRESSES, List.replicate_succ] at hhead
+  · cases h
+
+/-- what `ConnectToken::read` returns has the field widths of the Rust type, the library's version string and a
+    prefix-compact address array -/
+theorem ct_read_wf {src : Bytes} {t : ConnectToken} (h : ConnectToken.read src = .ok t) : CTokenWF t := by
   unfold ConnectToken.read at h
   obtain ⟨⟨cid, r1⟩, h1, h⟩ := io?_bind_ok h
   obtain ⟨⟨v, r2⟩, h2, h⟩ := io?_bind_ok h
@@ -3376,7 +3431,7 @@ theorem ct_read_wf {src : Bytes} {t : ConnectToken} (h : ConnectToken.read src =
   obtain ⟨⟨k1, r10⟩, h10, h⟩ := io?_bind_ok h
   obtain ⟨⟨k2, r11⟩, h11, h⟩ := io?_bind_ok h
   cases h
-  simp only at hc
+  have hc : Compact sa := readServerAddresses_compact h9
   have hv' : v = C.NETCODE_VERSION_INFO := by simpa using hv
   obtain ⟨_, _, _, l2, _⟩ := readN_some h2
   obtain ⟨_, _, _, _, b1⟩ := readU_some h1
@@ -3391,55 +3446,37 @@ theorem ct_read_wf {src : Bytes} {t : ConnectToken} (h : ConnectToken.read src =
   exact ⟨⟨by simpa using b1, l2, by simpa using b3, by simpa using b4, by simpa using b5, l6, compact_length hc,
     compact_wf hc, l10, l11, l7, t1, t2⟩, hv', hc⟩
 
-/-- **Partial re-encoding theorem for connect tokens**: a byte string that `read` accepts and whose decoded address
-    array is prefix-compact re-encodes to bytes that decode to the same token.  The compactness hypothesis cannot be
-    dropped (`ct_reencode_counterexample`). -/
-theorem ct_reencode_partial {src : Bytes} {t : ConnectToken} (h : ConnectToken.read src = .ok t)
-    (hc : Compact t.serverAddresses) : ∃ b', t.write = .ok b' ∧ ConnectToken.read b' = .ok t := by
-  have hwf := ct_read_wf h hc
+/-- **Re-encoding of connect tokens** (unconditional since the repair of D19): a byte string that `read` accepts
+    re-encodes to bytes that decode to the same token.  (Before the repair `read` skipped NONE entries and accepted
+    address lists with holes, for which this failed: the write format does not record which slots are empty.) -/
+theorem ct_reencode {src : Bytes} {t : ConnectToken} (h : ConnectToken.read src = .ok t) :
+    ∃ b', t.write = .ok b' ∧ ConnectToken.read b' = .ok t := by
+  have hwf := ct_read_wf h
   refine ⟨ctBytes t, ct_write_eq hwf, ?_⟩
   have := ct_read_bytes hwf []
   rwa [List.append_nil] at this
 
-/-- a serialised connect token whose address list is [IPv4, NONE, IPv4] -/
-def holedTokenBytes : Bytes :=
-  leBytes 5 8 ++ C.NETCODE_VERSION_INFO ++ leBytes 77 8 ++ leBytes 0 8 ++ leBytes 30 8 ++ List.replicate 24 6 ++
-  List.replicate 1024 7 ++ i32le 15 ++
-  ([3, 0, 0, 0] ++ [1, 127, 0, 0, 1, 136, 19] ++ [0] ++ [1, 10, 0, 0, 2, 112, 23]) ++
-  List.replicate 32 1 ++ List.replicate 32 2
+/-- the reader refuses an address list with a NONE entry (this input was accepted before the repair of D19) -/
+theorem read_rejects_hole :
+    readServerAddresses ([3, 0, 0, 0] ++ [1, 127, 0, 0, 1, 136, 19] ++ [0] ++ [1, 10, 0, 0, 2, 112, 23]) = none := by
+  decide +kernel
 
-/-- **Counter-example** to "decodes ⇒ re-encodes to bytes that decode to the same value" for connect tokens:
-    `holedTokenBytes` is accepted by `read`, the token re-serialises, and reading that gives a *different* token
-    (the second address moved from slot 2 to slot 1). -/
-theorem ct_reencode_counterexample :
-    ∃ t b' t', ConnectToken.read holedTokenBytes = .ok t ∧ t.write = .ok b' ∧ ConnectToken.read b' = .ok t' ∧ t' ≠ t := by
-  have h : (match ConnectToken.read holedTokenBytes with
-      | .ok t =>
-        match t.write with
-        | .ok b' =>
-          match ConnectToken.read b' with
-          | .ok t' => decide (t' ≠ t)
-          | _ => false
-        | _ => false
-      | _ => false) = true := by decide +kernel
-  cases h1 : ConnectToken.read holedTokenBytes with
-  | ok t =>
-    rw [h1] at h
-    simp only at h
-    cases h2 : t.write with
-    | ok b' =>
-      rw [h2] at h
-      simp only at h
-      cases h3 : ConnectToken.read b' with
-      | ok t' =>
-        rw [h3] at h
-        exact ⟨t, b', t', rfl, h2, h3, by simpa using h⟩
-      | err e => rw [h3] at h; cases h
-      | panic m => rw [h3] at h; cases h
-    | err e => rw [h2] at h; cases h
-    | panic m => rw [h2] at h; cases h
-  | err e => rw [h1] at h; cases h
-  | panic m => rw [h1] at h; cases h
+/-- what `PrivateConnectToken::read` returns is well-formed (so the server only ever sees prefix-compact host lists) -/
+theorem pt_read_wf {src : Bytes} {t : PrivateConnectToken} (h : PrivateConnectToken.read src = some t) : PTokenWF t := by
+  unfold PrivateConnectToken.read at h
+  simp only [Option.bind_eq_bind, Option.bind_eq_some_iff, Option.pure_def, Option.some.injEq, Prod.exists] at h
+  obtain ⟨cid, r1, h1, to, r2, h2, sa, r3, h3, k1, r4, h4, k2, r5, h5, ud, r6, h6, rfl⟩ := h
+  obtain ⟨_, _, _, _, b1⟩ := readU_some h1
+  obtain ⟨t1, t2, _⟩ := readI32_some h2
+  obtain ⟨_, _, _, l4, _⟩ := readN_some h4
+  obtain ⟨_, _, _, l5, _⟩ := readN_some h5
+  obtain ⟨_, _, _, l6, _⟩ := readN_some h6
+  exact ⟨by simpa using b1, t1, t2, readServerAddresses_compact h3, l4, l5, l6⟩
+
+theorem pt_decode_wf {a : AEAD} {buf : Bytes} {proto expire : Nat} {xnonce key : Bytes} {t : PrivateConnectToken}
+    (h : PrivateConnectToken.decode a buf proto expire xnonce key = .ok t) : PTokenWF t := by
+  obtain ⟨_, plain, _, hr⟩ := Bind.pt_decode_binds h
+  exact pt_read_wf hr
 
 end Token
 
